@@ -104,6 +104,11 @@ func (pac *PACType) ProcessPACInfoBuffers(key types.EncryptionKey, l *log.Logger
 		l = log.New(io.Discard, "", 0)
 	}
 	for _, buf := range pac.Buffers {
+		// The offset and size are attacker-controlled until the signature has been verified (which needs the
+		// buffers): they must describe octets that are actually there before they slice or size anything.
+		if buf.Offset > uint64(len(pac.Data)) || uint64(buf.CBBufferSize) > uint64(len(pac.Data))-buf.Offset {
+			return fmt.Errorf("PAC info buffer of type %d (offset %d, size %d) lies outside the %d octets of the PAC", buf.ULType, buf.Offset, buf.CBBufferSize, len(pac.Data))
+		}
 		p := make([]byte, buf.CBBufferSize, buf.CBBufferSize)
 		copy(p, pac.Data[int(buf.Offset):int(buf.Offset)+int(buf.CBBufferSize)])
 		switch buf.ULType {
